@@ -32,3 +32,25 @@ NON_NESTED = ['chebyshev', 'chebyshev-odd', 'gauss-legendre', 'gauss-legendre-od
               'gauss-gegenbauer', 'gauss-gegenbauer-odd', 'gauss-jacobi', 'gauss-jacobi-odd', 'gauss-laguerre', 'gauss-laguerre-odd', 'gauss-hermite', 'gauss-hermite-odd']
 LOCAL_RULES = ['localp', 'semi-localp', 'localp-zero', 'localp-boundary']
 DEPTH_TYPES = ['level', 'curved', 'iptotal', 'ipcurved', 'qptotal', 'qpcurved', 'hyperbolic', 'iphyperbolic', 'qphyperbolic', 'tensor', 'iptensor', 'qptensor']
+
+
+def krule(rule, order, check, maxp, unwind=16):
+    import kengine
+    return kengine.KConfig('K-%s-ord%d-check%d-p%d' % (rule, order, check, maxp), 'K_rule', '-DRULE=%s -DORDER=%d -DMAXP=%d -DCHECK=%d' % (rule, order, maxp, check), unwind=unwind, modv=maxp + 2)
+
+KRULES = ['localp', 'semilocalp', 'localp0', 'localpb']
+
+
+def kconfigs_for(tier, checks, quick_rules=('localp', 'semilocalp'), quick_orders=(2,), maxp_quick=65, maxp_thorough=257):
+    ks = []
+    if tier == 'quick':
+        for r in quick_rules:
+            for o in quick_orders:
+                for c in checks: ks.append(krule(r, o, c, maxp_quick))
+    else:
+        for r in KRULES:
+            for o in (1, 2, 3):
+                for c in checks: ks.append(krule(r, o, c, maxp_thorough if c != 5 else 129))
+        for c in checks:
+            if c != 5: ks.append(krule('pwc', 0, c, 243)); ks.append(krule('localp', 4, c, 129)); ks.append(krule('localp0', 5, c, 129))
+    return ks
